@@ -171,4 +171,19 @@ CHECKS = {
         assumptions=["real pthreads: schedules are sampled by timing perturbation, not enumerated", "a failure must reproduce in at least 1 of 3 re-runs to be reported",
                      "messages to a target that is disabled or closed while they are queued may be discarded (only target A, which stays enabled, is held to exactly-once delivery)"],
     ),
+    "C08": dict(
+        title="event loop runs every job, timer, fd and signal callback exactly as registered",
+        level="exploration",
+        design_ref="DESIGN.md section 4, C08",
+        technique="stateful model-based property testing: generated programs for the loop (actions consumed by every callback invocation) vs. a registration model, virtual time",
+        level_text="a case is a program for the loop: initial registrations plus an action list consumed by every callback invocation and by the harness between runs (add job/timer/fd/signal, "
+                   "delete own/other/fired/stale handles, poll_mod, write/drain pipes, close + reopen an fd number + re-add, raise, stop); real pipes and epoll, virtual clock; the model is checked inside every "
+                   "callback (exactly once, never after a successful delete, job order per priority, readiness) and at quiescence (everything registered and due was dispatched)",
+        level_note="trusted: the registration model; clock_gettime/epoll_wait/random are interposed (virtual time, unique check words: the 2^-31 handle collision is out of scope)",
+        stages=[rnd("program", "c08", 100000, 3000000, essential=["delete_of_queued_item", "stale_handle_after_slot_reuse", "callback_deletes_itself", "fd_number_reused", "signal_delivered",
+                                                                    "signal_deleted_while_queued", "fd_self_remove_by_return", "job_deleted_while_waiting", "timer_deleted_pending", "stop_from_callback", "poll_mod"])],
+        assumptions=["handles passed to delete calls are values the API issued earlier (live, fired, deleted, slot reused); signal handles (raw pointers) are deleted at most once",
+                     "a descriptor is closed only after qb_loop_poll_del succeeded for it; signals are raised from the loop thread and only while a handler for them is registered",
+                     "signal handlers are only added while no delivery of that signal is under way"],
+    ),
 }
